@@ -431,7 +431,7 @@ B("C28", "const-binder-becomes-type-var", "chalk-solve/src/infer.rs",
   "            VariableKind::Const(_) => ena_variable.to_ty(interner).cast(interner),", "C28.ARITY+KIND:to_generic_arg")
 B("C28", "root-answer-drops-binders", "chalk-engine/src/logic.rs",
   "                        binders: answer.subst.binders.clone(),\n                        value: ConstrainedSubst {",
-  "                        binders: CanonicalVarKinds::empty(context.program().interner()),\n                        value: ConstrainedSubst {", "C28.CLOSED:root_answer")
+  "                        binders: chalk_ir::CanonicalVarKinds::empty(context.program().interner()),\n                        value: ConstrainedSubst {", "C28.CLOSED:root_answer")
 
 # ---------------------------------------------------------------- C29
 B("C29", "mut-ref-covariant", "chalk-solve/src/infer/unify.rs",
